@@ -132,7 +132,7 @@ static void do_enc(char *p)
   struct jpeg_compress_struct c; struct jpeg_error_mgr e;
   unsigned char *out = NULL; unsigned long outsz = 0;
   int prec, cs, w, h, nc, hs[10], vs[10], q, fb, opt, ri, rows, mode, script, kind, psv, pt, tmix, qmix, icc, i, x, y;
-  long seed; void *img = NULL; static jpeg_scan_info scans[10];
+  long seed; void *img = NULL; static jpeg_scan_info scans[64];
   prec = strtol(p, &p, 10); cs = strtol(p, &p, 10); w = strtol(p, &p, 10); h = strtol(p, &p, 10);
   nc = strtol(p, &p, 10);
   for (i = 0; i < nc && i < 10; i++) { hs[i] = strtol(p, &p, 10); vs[i] = strtol(p, &p, 10); }
@@ -171,6 +171,27 @@ static void do_enc(char *p)
     if (mode == 1 || mode == 3) jpeg_simple_progression(&c);
     if (mode == 2 || mode == 3) c.arith_code = TRUE;
     if (mode == 4) jpeg_enable_lossless(&c, psv, pt);
+    if (script && (mode == 1 || mode == 3) && c.num_components <= 4) {
+      /* legal progressive scripts other than jpeg_simple_progression's */
+      int n = 0, ncmp = c.num_components, ci2;
+#define ADD(NC, SS, SE, AH, AL) (scans[n].comps_in_scan = (NC), scans[n].Ss = (SS), scans[n].Se = (SE), scans[n].Ah = (AH), scans[n].Al = (AL), n++)
+      if (script == 1) {             /* successive approximation, two refinement levels, uneven bands */
+        ADD(ncmp, 0, 0, 0, 2); for (i = 0; i < ncmp; i++) scans[n - 1].component_index[i] = i;
+        for (ci2 = 0; ci2 < ncmp; ci2++) { ADD(1, 1, 9, 0, 2); scans[n - 1].component_index[0] = ci2; ADD(1, 10, 63, 0, 1); scans[n - 1].component_index[0] = ci2; }
+        for (ci2 = ncmp - 1; ci2 >= 0; ci2--) { ADD(1, 1, 9, 2, 1); scans[n - 1].component_index[0] = ci2; }
+        ADD(ncmp, 0, 0, 2, 1); for (i = 0; i < ncmp; i++) scans[n - 1].component_index[i] = i;
+        for (ci2 = 0; ci2 < ncmp; ci2++) { ADD(1, 1, 63, 1, 0); scans[n - 1].component_index[0] = ci2; }
+        ADD(ncmp, 0, 0, 1, 0); for (i = 0; i < ncmp; i++) scans[n - 1].component_index[i] = i;
+      } else {                       /* spectral selection only, DC per component, three bands */
+        for (ci2 = 0; ci2 < ncmp; ci2++) { ADD(1, 0, 0, 0, 0); scans[n - 1].component_index[0] = ci2; }
+        for (ci2 = 0; ci2 < ncmp; ci2++) {
+          ADD(1, 1, 1, 0, 0); scans[n - 1].component_index[0] = ci2;
+          ADD(1, 2, 32, 0, 0); scans[n - 1].component_index[0] = ci2;
+          ADD(1, 33, 63, 0, 0); scans[n - 1].component_index[0] = ci2;
+        }
+      }
+      c.scan_info = scans; c.num_scans = n;
+    }
     if (script && (mode == 0 || mode == 2 || mode == 4) && c.num_components > 1) {
       int n = 0, ncmp = c.num_components;
       if (script == 1) {
